@@ -141,7 +141,7 @@ class Effects:
             return self._dirsync_bodies
         res = set()
         for b in self.f.bodies.values():
-            opens = [cs for (p, e, cs) in self._raw_sites(b) if e == 'OPENRO' and cs.name.startswith('std::fs::OpenOptions::open')]
+            opens = [cs for (p, e, cs) in self._raw_sites(b) if e == 'OPENRO' and (cs.name.startswith('std::fs::OpenOptions::open') or cs.name.startswith('std::fs::File::open'))]
             syncs = [cs for (p, e, cs) in self._raw_sites(b) if e == 'FSYNC']
             # `open(dir).and_then(|fd| fd.sync_data())`: the fsync sits in a closure this body calls (A-DESUGAR)
             for c in b.calls:
@@ -152,7 +152,7 @@ class Effects:
             ok = False
             for cs in opens:
                 # path argument is args[1]; must be a borrow of (*self).dir of Directory
-                al = cs.arg_local(1)
+                al = cs.arg_local(1) if cs.name.startswith('std::fs::OpenOptions::open') else cs.arg_local(0)     # File::open(path): read-only
                 if al is None:
                     continue
                 # ... possibly through re-borrows and path views (`&*self.dir`, `self.dir.as_path()`, a `&Path` kept in a
